@@ -215,6 +215,12 @@ func Utf8ToBig5(utf8 string) (big5 []byte) {
 			}
 			big5 = append(big5, eachBig5...)
 			p_utf8 = p_utf8[3:]
+		} else {
+			// continuation byte without a lead, 4-byte (or invalid) lead, or a sequence cut short:
+			// nothing Big5 can hold. Same replacement as for an unmapped sequence, then skip the byte
+			// (without this arm the cursor never advanced and the loop did not end).
+			big5 = append(big5, 0xff, 0xfd)
+			p_utf8 = p_utf8[1:]
 		}
 	}
 
